@@ -469,31 +469,50 @@ pub fn install_auth_tree(env: &Env, spec_tok: &str, tree: &Inv, wrong_root_args:
 /// and then `migrate(())`, each under the given authorisation ("@" stands for the contract's current owner). "ok" iff both
 /// succeed. The migration code of the current tree runs; whatever it does, the modelled state must come out unchanged (the
 /// queries and operations that follow show it).
-pub fn upgrade_migrate(env: &Env, c: &Address, auth_tok: &str) -> (String, String) {
-    use soroban_sdk::{IntoVal, Symbol};
-    let tok: String = if auth_tok == "@" {
+fn owner_tok(env: &Env, c: &Address, auth_tok: &str) -> String {
+    use soroban_sdk::Symbol;
+    if auth_tok == "@" {
         match guarded(|| env.try_invoke_contract::<Address, soroban_sdk::Error>(c, &Symbol::new(env, "owner"), soroban_sdk::Vec::new(env))) {
             Ok(Ok(Ok(o))) => Addr::from_sdk(&o).tok(),
             _ => "-".to_string(),
         }
     } else {
         auth_tok.to_string()
-    };
+    }
+}
+/// `upgrade(sha256(""))` alone (opens the migration window)
+pub fn upgrade_step(env: &Env, c: &Address, auth_tok: &str) -> (String, String) {
+    use soroban_sdk::{IntoVal, Symbol};
+    let tok = owner_tok(env, c, auth_tok);
     let h: BytesN<32> = env.crypto().sha256(&Bytes::new(env)).into();
     let tree = Inv::new(c, "upgrade", (h.clone(),).into_val(env), vec![]);
     install_auth_tree(env, &tok, &tree, (BytesN::<32>::from_array(env, &[0x43; 32]),).into_val(env));
     let r = guarded(|| env.try_invoke_contract::<Val, soroban_sdk::Error>(c, &Symbol::new(env, "upgrade"), (h,).into_val(env)));
-    if !matches!(r, Ok(Ok(Ok(_)))) {
-        return ("err".into(), short_err(&format!("upgrade:{r:?}")));
+    match r {
+        Ok(Ok(Ok(_))) => ("ok".into(), String::new()),
+        other => ("err".into(), short_err(&format!("upgrade:{other:?}"))),
     }
+}
+/// `migrate(())` alone (needs and closes the window)
+pub fn migrate_step(env: &Env, c: &Address, auth_tok: &str) -> (String, String) {
+    use soroban_sdk::{IntoVal, Symbol};
+    let tok = owner_tok(env, c, auth_tok);
     let d: soroban_sdk::Vec<Val> = ((),).into_val(env);
     let tree = Inv::new(c, "migrate", d.clone(), vec![]);
     install_auth_tree(env, &tok, &tree, (7u32, 8u32).into_val(env));
     let r = guarded(|| env.try_invoke_contract::<Val, soroban_sdk::Error>(c, &Symbol::new(env, "migrate"), d));
     match r {
         Ok(Ok(Ok(_))) => ("ok".into(), String::new()),
-        other => ("err-migrate".into(), short_err(&format!("migrate:{other:?}"))),
+        other => ("err".into(), short_err(&format!("migrate:{other:?}"))),
     }
+}
+pub fn upgrade_migrate(env: &Env, c: &Address, auth_tok: &str) -> (String, String) {
+    let (o, d) = upgrade_step(env, c, auth_tok);
+    if o != "ok" {
+        return (o, d);
+    }
+    let (o, d) = migrate_step(env, c, auth_tok);
+    if o == "ok" { (o, d) } else { ("err-migrate".into(), d) }
 }
 
 // ------------------------------------------------------------------------------------------------
